@@ -54,7 +54,7 @@ impl<'f> StreamHeap<'f> {
     //@CONTRACT-OF heap :: impl StreamHeap :: fn peek_is_duplicate
     #[verifier::external_body]
         fn peek_is_duplicate(&self, key: &[u8]) -> (r: bool)
-        requires self.hinv()
+        requires self.hinv(), self.heads_ge(key@)
         ensures r ==> self.min_is(key@),
             !r ==> self.no_heads() || exists|k: Seq<u8>| k != key@ && #[trigger] self.min_is(k)
     { unimplemented!() }
@@ -62,7 +62,7 @@ impl<'f> StreamHeap<'f> {
     //@CONTRACT-OF heap :: impl StreamHeap :: fn pop_if_equal
     #[verifier::external_body]
         fn pop_if_equal(&mut self, key: &[u8]) -> (r: Option<Slot>)
-        requires old(self).hinv()
+        requires old(self).hinv(), old(self).heads_ge(key@)
         ensures final(self).hinv(), final(self).rests() == old(self).rests(),
             match r {
                 None => final(self).heads() == old(self).heads() && (old(self).no_heads() || exists|k: Seq<u8>| k != key@ && #[trigger] old(self).min_is(k)),
